@@ -219,7 +219,7 @@ def oracle_c18(c, r, err=""):
         # a thrown exception is not one of the documented statuses; only a singular/indefinite Hessian handed to
         # solve() by the user's own problem is accepted (counted, not judged)
         what = r["raw"].get("what", "")
-        if c["algo"] in SECOND_ORDER and ("ill" in what.lower() or "singular" in what.lower() or "factoriz" in what.lower()):
+        if c["algo"] in SECOND_ORDER and any(k in what.lower() for k in ("ill", "singular", "factoriz", "failed_to_solve")):
             return [("skip-exception", what)]
         return [("exception", "the call threw: " + what)]
     if st not in DOCUMENTED_FINAL:
@@ -490,55 +490,150 @@ def frac_solve(A, b):
     return [M[i][n] for i in range(n)]
 
 
-def kkt_point(H, cvec, lo, up):
-    """the point satisfying the first-order conditions of  min 1/2 (x-c)^T H (x-c)  s.t. lo <= x <= up,
-    by enumeration of active sets, exactly (H, c, bounds are the doubles handed to the implementation).
-    -> (x* as Fractions, active map) ; all KKT points found are returned so that uniqueness is checked too"""
+def float_solve(A, b):
+    """Gaussian elimination with partial pivoting in doubles; None if (numerically) singular"""
+    n = len(A)
+    M = [list(map(float, row)) + [float(bv)] for row, bv in zip(A, b)]
+    for col in range(n):
+        piv = max(range(col, n), key=lambda r: abs(M[r][col]))
+        if M[piv][col] == 0.0:
+            return None
+        M[col], M[piv] = M[piv], M[col]
+        for r in range(col + 1, n):
+            f = M[r][col] / M[col][col]
+            if f != 0.0:
+                for k in range(col, n + 1):
+                    M[r][k] -= f * M[col][k]
+    x = [0.0] * n
+    for i in range(n - 1, -1, -1):
+        x[i] = (M[i][n] - sum(M[i][k] * x[k] for k in range(i + 1, n))) / M[i][i]
+    return x
+
+
+def active_set_guess(H, cvec, lo, up):
+    """textbook primal active-set method (Nocedal & Wright alg. 16.3) in doubles -> working set {i: -1|+1};
+    only a GUESS: the result is certified exactly by kkt_certify, so nothing rests on this routine"""
+    n = len(cvec)
+    x = [max(lo[i], min(cvec[i], up[i])) for i in range(n)]
+    W = {}
+    for i in range(n):
+        if finite_bound(lo[i]) and x[i] <= lo[i]:
+            W[i] = -1
+        elif finite_bound(up[i]) and x[i] >= up[i]:
+            W[i] = 1
+    for _ in range(20 * n + 50):
+        g = [sum(H[i][j] * (x[j] - cvec[j]) for j in range(n)) for i in range(n)]
+        F = [i for i in range(n) if i not in W]
+        p = [0.0] * n
+        if F:
+            y = float_solve([[H[i][j] for j in F] for i in F], [-g[i] for i in F])
+            if y is None:
+                return None
+            for k, i in enumerate(F):
+                p[i] = y[k]
+        scale = max([1.0] + [abs(v) for v in x])
+        if all(abs(v) <= 1e-13 * scale for v in p):
+            worst, wi = 0.0, None
+            for i, t in W.items():
+                viol = -g[i] if t == -1 else g[i]     # lower needs g >= 0, upper needs g <= 0
+                if viol > worst:
+                    worst, wi = viol, i
+            if wi is None or worst <= 1e-12 * max(1.0, max(abs(v) for v in g)):
+                return W
+            del W[wi]
+            continue
+        alpha, blk, side = 1.0, None, 0
+        for i in F:
+            if p[i] < 0 and finite_bound(lo[i]):
+                a = (lo[i] - x[i]) / p[i]
+                if a < alpha:
+                    alpha, blk, side = a, i, -1
+            elif p[i] > 0 and finite_bound(up[i]):
+                a = (up[i] - x[i]) / p[i]
+                if a < alpha:
+                    alpha, blk, side = a, i, 1
+        alpha = max(alpha, 0.0)
+        x = [x[i] + alpha * p[i] for i in range(n)]
+        if blk is not None:
+            x[blk] = lo[blk] if side == -1 else up[blk]
+            W[blk] = side
+    return W
+
+
+def kkt_certify(H, cvec, lo, up, W):
+    """exact (rational) solve on the free set for the working set W and exact test of the first-order conditions
+    on the doubles handed to the implementation -> x* as Fractions, or None if W is not the active set"""
     n = len(cvec)
     Hf = [[Fraction(v) for v in row] for row in H]
     cf = [Fraction(v) for v in cvec]
-    lof = [None if not finite_bound(l) else Fraction(l) for l in lo]
-    upf = [None if not finite_bound(u) else Fraction(u) for u in up]
-    choices = []
-    for i in range(n):
-        ch = [0]
-        if lof[i] is not None:
-            ch.append(-1)
-        if upf[i] is not None:
-            ch.append(1)
-        choices.append(ch)
+    x = [None] * n
+    for i, t in W.items():
+        x[i] = Fraction(lo[i]) if t == -1 else Fraction(up[i])
+    F = [i for i in range(n) if i not in W]
+    if F:
+        A = [[Hf[i][j] for j in F] for i in F]
+        rhs = [-sum(Hf[i][j] * (x[j] - cf[j]) for j in W) for i in F]
+        y = frac_solve(A, rhs)
+        if y is None:
+            return None
+        for k, i in enumerate(F):
+            x[i] = y[k] + cf[i]
+    for i in F:
+        if (finite_bound(lo[i]) and x[i] < Fraction(lo[i])) or (finite_bound(up[i]) and x[i] > Fraction(up[i])):
+            return None
+    for i, t in W.items():
+        gi = sum(Hf[i][j] * (x[j] - cf[j]) for j in range(n))
+        if (t == -1 and gi < 0) or (t == 1 and gi > 0):
+            return None
+    return x
+
+
+def kkt_point(H, cvec, lo, up, enumerate_below=7):
+    """THE point satisfying the first-order conditions of  min 1/2 (x-c)^T H (x-c)  s.t. lo <= x <= up  (unique for
+    SPD H: theorem C19_kkt_unique).  Exact: a working set is guessed by a floating-point active-set method and then
+    CERTIFIED in rational arithmetic (exact solve on the free set, exact sign tests); for n < enumerate_below, or if
+    the guess does not certify, all 3^n working sets are enumerated (float screening, exact certification).
+    -> list of certified KKT points (length 1 unless the matrix is not SPD)"""
+    n = len(cvec)
     sols = []
-    for act in itertools.product(*choices):
-        free = [i for i in range(n) if act[i] == 0]
-        x = [None] * n
-        for i in range(n):
-            if act[i] == -1:
-                x[i] = lof[i]
-            elif act[i] == 1:
-                x[i] = upf[i]
-        if free:
-            # H_FF (x_F - c_F) = - H_FB (x_B - c_B)
-            A = [[Hf[i][j] for j in free] for i in free]
-            rhs = [-sum(Hf[i][j] * (x[j] - cf[j]) for j in range(n) if act[j] != 0) for i in free]
-            y = frac_solve(A, rhs)
-            if y is None:
-                continue
-            for k, i in enumerate(free):
-                x[i] = y[k] + cf[i]
-        ok = True
-        for i in free:
-            if (lof[i] is not None and x[i] < lof[i]) or (upf[i] is not None and x[i] > upf[i]):
-                ok = False; break
-        if not ok:
-            continue
-        g = [sum(Hf[i][j] * (x[j] - cf[j]) for j in range(n)) for i in range(n)]
-        for i in range(n):
-            if act[i] == -1 and g[i] < 0:
-                ok = False; break
-            if act[i] == 1 and g[i] > 0:
-                ok = False; break
-        if ok and not any(all(a == b for a, b in zip(x, s)) for s in sols):
+
+    def add(x):
+        if x is not None and not any(all(a == b for a, b in zip(x, s)) for s in sols):
             sols.append(x)
+
+    W = active_set_guess(H, cvec, lo, up)
+    if W is not None:
+        add(kkt_certify(H, cvec, lo, up, W))
+    if n < enumerate_below or not sols:
+        choices = []
+        for i in range(n):
+            ch = [0]
+            if finite_bound(lo[i]):
+                ch.append(-1)
+            if finite_bound(up[i]):
+                ch.append(1)
+            choices.append(ch)
+        for act in itertools.product(*choices):
+            Wd = {i: t for i, t in enumerate(act) if t != 0}
+            # float screening of the working set, exact certification of the survivors
+            F = [i for i in range(n) if i not in Wd]
+            xf = [0.0] * n
+            for i, t in Wd.items():
+                xf[i] = lo[i] if t == -1 else up[i]
+            if F:
+                y = float_solve([[H[i][j] for j in F] for i in F], [-sum(H[i][j] * (xf[j] - cvec[j]) for j in Wd) for i in F])
+                if y is None:
+                    continue
+                for k, i in enumerate(F):
+                    xf[i] = y[k] + cvec[i]
+            sc = max([1.0] + [abs(v) for v in xf])
+            if any((finite_bound(lo[i]) and xf[i] < lo[i] - 1e-9 * sc) or (finite_bound(up[i]) and xf[i] > up[i] + 1e-9 * sc) for i in F):
+                continue
+            gf = [sum(H[i][j] * (xf[j] - cvec[j]) for j in range(n)) for i in range(n)]
+            gs = max([1.0] + [abs(v) for v in gf])
+            if any((t == -1 and gf[i] < -1e-9 * gs) or (t == 1 and gf[i] > 1e-9 * gs) for i, t in Wd.items()):
+                continue
+            add(kkt_certify(H, cvec, lo, up, Wd))
     return sols
 
 
